@@ -38,7 +38,7 @@ var NotCovered = []string{
 // withdrawals, orders per batch as printed by -capsinfo). The label is part of the configuration name, after '#'.
 const (
 	CapsLabel = "#small-batch-caps"
-	SmallCaps = "2 2 2"
+	SmallCaps = "2 2 2 1"
 )
 
 // RunFn is what main hands to Plan: run one BFS.
@@ -98,6 +98,20 @@ func Plan(thorough bool, run RunFn) {
 		return func(path []int, _ string) []int {
 			var out []int
 			for i, o := range alphaB {
+				if o.Kind == "pair2" {
+					continue // small-capacity build only (bOpsCaps)
+				}
+				if len(path) < fullDepth || o.Chain == "" {
+					out = append(out, i)
+				}
+			}
+			return out
+		}
+	}
+	bOpsCaps := func(fullDepth int) func(path []int, info string) []int {
+		return func(path []int, _ string) []int {
+			var out []int
+			for i, o := range alphaB {
 				if len(path) < fullDepth || o.Chain == "" {
 					out = append(out, i)
 				}
@@ -131,6 +145,9 @@ func Plan(thorough bool, run RunFn) {
 		var out []int
 		for i, o := range alphaB {
 			ok := false
+			if o.Kind == "pair2" {
+				continue
+			}
 			for _, f := range fams {
 				if len(path) >= len(f) {
 					continue
@@ -194,7 +211,7 @@ func Plan(thorough bool, run RunFn) {
 	}
 	BS := func(cfg string, depth, fullDepth int) {
 		if only == "" || only == "B" || only == "CS" {
-			run("B", cfg+CapsLabel, depth, namesB, len(alphaB), bOps(fullDepth), share)
+			run("B", cfg+CapsLabel, depth, namesB, len(alphaB), bOpsCaps(fullDepth), share)
 		}
 	}
 	F := func(cfg string) {
